@@ -220,6 +220,80 @@ def Scope.callNow (sc : Scope) (fn : String) (segs : List Seg) (buf : List UInt8
     | (sc1, some f) => (sc1, some f)
     | (sc1, none) => sc1.checkLast
 
+/-! ## lazily finished calls, ignoreOtherCalls, several scopes -/
+
+/-- a call statement; `now` = the test asks for the return value, which finishes the call at
+    once — otherwise the call stays in flight until the next `actualCall` on the same scope or
+    `checkExpectations` / `expectedCallsLeft` finishes it -/
+structure Stmt where
+  call : Call
+  now  : Bool
+deriving Repr, Inhabited
+
+/-- the run as the API performs it on one `MockSupport`: `actualCall` first finishes the call
+    in flight, ignores the call if the scope is disabled or ignores other calls and has no
+    expectation of that name, otherwise starts the new call and applies its steps; the first
+    failure leaves the scenario -/
+def Scope.lazyRun (sc : Scope) : List Stmt → Scope × Option String
+  | [] => (sc, none)
+  | s :: rest =>
+    match (sc.actualCall s.call.name).fail with
+    | some f => ((sc.actualCall s.call.name).sc, some f)
+    | none =>
+      if (sc.actualCall s.call.name).ignored then Scope.lazyRun (sc.actualCall s.call.name).sc rest
+      else
+        match segsLoop (sc.actualCall s.call.name).sc bufInit s.call.segs with
+        | (sc1, some f) => (sc1, some f)
+        | (sc1, none) =>
+          if s.now then
+            match sc1.checkLast with
+            | (sc2, some f) => (sc2, some f)
+            | (sc2, none) => Scope.lazyRun sc2 rest
+          else Scope.lazyRun sc1 rest
+
+/-- … followed by `mock().checkExpectations()` (which finishes the last call first) -/
+def Scope.lazyVerdict (sc : Scope) (stmts : List Stmt) : Option String :=
+  match sc.lazyRun stmts with
+  | (_, some f) => some f
+  | (sc1, none) => (World.check { glob := sc1, subs := [] } "").2
+
+/-- the eager run, with `ignoreOtherCalls`: a call to a function no expectation names is skipped -/
+def runG (ioc : Bool) (es : List Exp) (k : Nat) : List Call → Option String
+  | [] => endCheck es
+  | c :: rest =>
+    if ioc && !es.any (fun e => e.name == c.name) then runG ioc es k rest
+    else
+      match (callFull es (k + 1) c.name c.segs bufInit).fail with
+      | some m => some m
+      | none => runG ioc (callFull es (k + 1) c.name c.segs bufInit).es (k + 1) rest
+
+/-- the expectation list and the pending failure of a scope once the call in flight is finished -/
+def Scope.settledEs (sc : Scope) : List Exp :=
+  match sc.last with
+  | none => sc.es
+  | some c => (callCheck { es := sc.es, call := c, fail := none }).es
+
+def Scope.settledFail (sc : Scope) : Option String :=
+  match sc.last with
+  | none => none
+  | some c => (callCheck { es := sc.es, call := c, fail := none }).fail
+
+/-- the calls `ignoreOtherCalls` lets through -/
+def knownCalls (es : List Exp) (calls : List Call) : List Call :=
+  calls.filter (fun c => es.any (fun e => e.name == c.name))
+
+/-- the first failure finishing the calls in flight reports, scope by scope (global mock first,
+    then the named scopes in creation order) -/
+def firstPendingFail : List Scope → Option String
+  | [] => none
+  | s :: rest =>
+    match s.settledFail with
+    | some f => some f
+    | none => firstPendingFail rest
+
+/-- the expectations of the global mock and of every named scope, once the calls in flight are finished -/
+def World.allSettledEs (w : World) : List Exp := (w.glob :: w.subs).flatMap Scope.settledEs
+
 /-! ## the ignore-other-parameters class -/
 
 /-- the expectation list after a sequence of calls, if none of them reports a failure -/
